@@ -173,8 +173,20 @@ PLANS["C01"] = {
     "rule": "every call runs under catch_unwind (a panic is a trace event no specification action explains); the harness process runs "
             "under a watchdog, its death or timeout is attributed to the last begun history; each soup run ends with CAN BEL BEL + probe",
 }
+def mcrec(family, maxlen, utf8, p, **kw):
+    d = {"module": "MCRec", "model": "rec-%s-%s" % (family, "u" if utf8 else "e"), "kind": "rec", "view": "View",
+         "constants": {"MaxLen": maxlen, "Utf8Mode": "TRUE" if utf8 else "FALSE", "Family": '"%s"' % family},
+         "invariants": ["Agrees", "GroundClean", "ResetWord", "Complete", "Emit"], "ports": p}
+    d.update(kw)
+    return d
+
 PLANS["C03"] = {
     "props": ["C03"], "ops": ["feed"],
+    "mc": [mcrec("graph", {"quick": 5, "thorough": 6}, True, ports({"chars": 1, "chars1": 3, "bytes": 4}, {"chars": 1, "chars1": 2, "bytes": 3})),
+           mcrec("graph", {"quick": 5, "thorough": 6}, False, ports({"chars": 1, "chars1": 3, "bytes": 4}, {"chars": 1, "chars1": 2, "bytes": 3})),
+           mcrec("directed", 1, True, ports({"chars": 1, "chars1": 2, "bytes": 2}, {"chars": 1, "chars1": 1, "bytes": 1, "bytes1": 1})),
+           mcrec("directed", 1, False, ports({"chars": 1}, {"chars": 1, "bytes": 1})),
+           mcrec("osc", 1, True, ports({"chars": 2}, {"chars": 1, "bytes": 1}))],
     "gen": [gen("recsoup", 600, 20000, chars=60), gen("recsoup", 200, 6000, chars=200), walk("", 100, 3000, port="chars"),
             walk("", 60, 2000, port="chars", utf8=0)],
     "rule": "random strings over one representative of every character class of the grammar (every C0 control, ESC, C1 CSI/OSC/ST, digits, "
@@ -184,6 +196,8 @@ PLANS["C03"] = {
 }
 PLANS["C19"] = {
     "props": ["C19"], "ops": ["feed", "title", "icon"],
+    "mc": [mcrec("osc", 1, True, ports({"chars": 1, "chars1": 2, "bytes": 1, "bytes1": 3}, {"chars": 1, "chars1": 1, "bytes": 1, "bytes1": 1})),
+           mcrec("osc", 1, False, ports({"chars": 1}, {"chars": 1, "chars1": 1}))],
     "gen": [gen("recsoup", 400, 12000, chars=60), gen("recsoup", 200, 6000, chars=60, port="bytes"), walk("C19", 120, 3000, port="chars"),
             walk("C19", 60, 1500, port="bytes"), walk("C19", 60, 1500)],
     "rule": "OSC strings with codes 0-3, 9, a; payloads over letters ; \\ ] space non-ASCII C0; terminators BEL, U+009C, ESC \; both "
@@ -199,7 +213,8 @@ PLANS["C11"] = {
 }
 PLANS["C02"] = {
     "props": ["C02"], "ops": ["feed"],
-    "gen": [gen("chunked", 40, 1200, tokens=25), gen("chunked", 20, 600, tokens=25, utf8=0), gen("chunked", 20, 600, tokens=12, geom="tiny"),
+    "gen": [gen("chunkedsoup", 120, 4000, bytes=60), gen("chunkedsoup", 40, 1200, bytes=60, utf8=0), gen("chunkedsoup", 40, 1200, bytes=25, geom="tiny"),
+            gen("chunked", 40, 1200, tokens=25), gen("chunked", 20, 600, tokens=25, utf8=0), gen("chunked", 20, 600, tokens=12, geom="tiny"),
             gen("captured", 7, 70, maxbytes=1500)],
     "rule": "each generated session (and each captured session prefix) is fed whole, one unit at a time, with one random cut, with random "
             "k-way cuts and with empty chunks inserted, through Parser (character cuts) and ByteParser (byte cuts, UTF-8 and 8-bit); TLC "
